@@ -89,3 +89,8 @@ Proof. repeat split; reflexivity. Qed.
 From SymfcG Require Import SkelSpg SkelBasis SkelIdx.
 Theorem c02_module_skeletons_in_force : SkelSpg_as_recorded = true /\ SkelBasis_as_recorded = true /\ SkelIdx_as_recorded = true.
 Proof. repeat split; reflexivity. Qed.
+
+(** Further recorded sources this property's statement depends on (invariance of the result also needs the later stages to keep it: the sum-rule builders, the orbit routines and the eigen-solver): whole-function / skeleton match, regenerated on every run. *)
+From SymfcG Require Import ShapesSumRule ShapesPerm SkelMat SkelPerm ShapesAuxEig SkelEig.
+Theorem c02_recorded_sources4_in_force : ShapesSumRule_as_recorded = true /\ ShapesPerm_as_recorded = true /\ SkelMat_as_recorded = true /\ SkelPerm_as_recorded = true /\ ShapesAuxEig_as_recorded = true /\ SkelEig_as_recorded = true.
+Proof. repeat split; reflexivity. Qed.
